@@ -19,6 +19,10 @@ func init() {
 			c07Read(c)
 			readerNextFrameRules(c, "C07")
 			readerReadRules(c, "C07")
+			// the automaton state must not survive a discarded message or a reused reader
+			readerDiscardRules(c, "C07")
+			helperReadDataRules(c, "C07")
+			helperReadMessageRules(c, "C07")
 		},
 	})
 }
